@@ -131,7 +131,8 @@ def run_direct_case(case, tier):
             shown.append(str(expr)[:160])
     if failing:
         key, diag, fixed = CF.diagnose_and_key(
-            names, lambda rec: all(CF.poly_eval_ep(fld, q, eps).is_zero() for q, _ in CF.basis_to_polys(rec, names, fld)))
+            names, lambda rec: all(CF.poly_eval_ep(fld, q, eps).is_zero() for q, _ in CF.basis_to_polys(rec, names, fld)),
+            need_bad_vector=True)
         for expr, n, v in failing[:4]:
             res["violations"].append({
                 "kind": "invariant-does-not-hold", "key": key, "n": n,
@@ -228,7 +229,7 @@ def run_cli_case(case, tier):
                     if not fld.is_zero(CF.poly_eval(fld, q, [(table[i][n], F(0)) for i in range(len(gids))])):
                         return False
             return True
-        key, diag, fixed = CF.diagnose_and_key(gids, sound)
+        key, diag, fixed = CF.diagnose_and_key(gids, sound, need_bad_vector=True)
         if cf_agree is False:
             key = None
         for expr, n, v in failing[:4]:
